@@ -31,6 +31,8 @@ Answer:  model=<dump> spec=<dump> ops=<m/s;m/s;…|_> lazy0=<idxs> lazy1=<idxs> 
 import EPV.Proto
 import EPV.Spec.XDMTree
 import EPV.Model.BuilderIters
+import EPV.Model.BuilderNav
+import EPV.Spec.XDMNav
 open EPV.Proto EPV.Builder EPV.XDM
 
 abbrev P := StateT (List String) Option
@@ -234,6 +236,16 @@ def answerTreeOp (root : PNode) (nodes : List Rec) (items : List Item) (op : Str
     | some xs, some ys, some zs =>
       some s!"{showIdxs (opUnion nodes (xs ++ ys) zs)}/{showIdxs (specUnion items.length (xs ++ ys) zs)}"
     | _, _, _ => some "bad"
+  | ["nav", k] => match nat? k with
+    -- phase 5: the link-reading API on node k: parent, children, iter_ancestors, root_node, descendant-or-self
+    | some k =>
+      let navs := navOf root
+      let q := posOfIdx nodes k
+      let ix (l : List Nat) : String := if l.isEmpty then "_" else ".".intercalate (l.map (idxOfPos nodes))
+      let m := s!"{match navParent navs q with | some p => idxOfPos nodes p | none => "-"},{ix (navChildren navs q)},{ix (navIterAncestors navs q)},{idxOfPos nodes (navRootNode navs q)},{ix (navDescendants navs q)}"
+      let sp := s!"{showON (specParent items k)},{showIdxs (specChildren items k)},{showIdxs (specAncestors items k)},0,{showIdxs (specDescOrSelf items k)}"
+      some s!"{m}/{sp}"
+    | none => some "bad"
   | ["lzsub", k] => match nat? k with
     | some k => match nodeAt root (posOfIdx nodes k) with
       | some sub =>
